@@ -18,6 +18,8 @@ import (
 	"slices"
 	"time"
 
+	"example.com/scion-time/base/timemath"
+
 	"example.com/scion-time/net/ntp"
 
 	"example.com/scion-time/core/measurements"
@@ -80,7 +82,7 @@ func (f *LuckyPacketFilter) Do(cTxTime, sRxTime, sTxTime, cRxTime time.Time) (
 	if len(f.luckyPkts)%2 != 0 {
 		return f.luckyPkts[i].off
 	}
-	return f.luckyPkts[i-1].off + (f.luckyPkts[i].off-f.luckyPkts[i-1].off)/2
+	return timemath.Midpoint(f.luckyPkts[i-1].off, f.luckyPkts[i].off)
 }
 
 func (f *LuckyPacketFilter) Reset() {
